@@ -96,10 +96,25 @@ func c05CheckArith(c c05ArithCase) h.Result {
 	chk("Neg(alias)", x.Neg(x), ref.SNeg(ai))
 	x = New().Set(a)
 	chk("Reduce(alias)", x.Reduce(x), ref.SMod(ai))
-	// Equal: byte equality of representations (documented: "iff equal")
+	// Equal ("returns 1 iff s and t are equal"): identical representations are
+	// equal and different residues are not.  For two DIFFERENT representations of
+	// the same residue (only possible with a non-reduced operand) the
+	// documentation leaves open whether "equal" means the representation or the
+	// element of Z/L: recorded, not asserted.
 	r.Eval(1)
-	if (a.Equal(b) == 1) != bytes.Equal(c.A, c.B) {
-		r.Fail("Scalar.Equal:wrong", "a=%x b=%x got %d", []byte(c.A), []byte(c.B), a.Equal(b))
+	switch eq := a.Equal(b) == 1; {
+	case bytes.Equal(c.A, c.B):
+		if !eq {
+			r.Fail("Scalar.Equal:wrong", "a=%x b=%x (identical) got %d", []byte(c.A), []byte(c.B), a.Equal(b))
+		}
+	case ref.SMod(ai).Cmp(ref.SMod(bi)) != 0:
+		if eq {
+			r.Fail("Scalar.Equal:wrong", "a=%x b=%x (different residues) got %d", []byte(c.A), []byte(c.B), a.Equal(b))
+		}
+	case eq:
+		r.Class("Equal(two-representations-of-one-residue)=1")
+	default:
+		r.Class("Equal(two-representations-of-one-residue)=0")
 	}
 	// ConditionalSelect
 	r.Eval(1)
@@ -192,8 +207,10 @@ func c05CheckDec(c c05DecCase) h.Result {
 		if err == nil || ret != nil {
 			r.Fail("Scalar.SetCanonicalBytes:accepted-noncanonical", "in=%x", in)
 		}
-		if !bytes.Equal(scBytes(pre), bytes.Repeat([]byte{0x11}, 32)) {
-			r.Fail("Scalar.SetCanonicalBytes:receiver-modified-on-error", "in=%x", in)
+		// nothing documents the receiver after a refusal: untouched or zero, but
+		// not the refused value (in whole or in part)
+		if got := scBytes(pre); !bytes.Equal(got, bytes.Repeat([]byte{0x11}, 32)) && !bytes.Equal(got, make([]byte, 32)) {
+			r.Fail("Scalar.SetCanonicalBytes:receiver-modified-on-error", "in=%x receiver=%x", in, got)
 		}
 	}
 	r.Eval(1)
